@@ -594,6 +594,10 @@ def prov_sampler_setup(repo, tier="quick"):
         grown = call_arg(gcall, 0, "molecule")
         # same variable as the one handed to add_fragment, fresh empty graph at the merge
         same = isinstance(a0, ast.Name) and isinstance(grown, ast.Name) and a0.id == grown.id
+        if not same and isinstance(grown, ast.Name) and t0 is not None:
+            # ... or a plain copy of that name
+            same = any(d.kind == "assign" and not d.path and d.value is not None and fl.canon(d.value, d.node) == t0
+                       for d in fl.reaching(grown.id, gnode))
         fresh = t0 is not None and is_call(t0, "networkx.Graph") is not None and not is_call(t0, "networkx.Graph")[0]
         dom = cfg.dominates(mn, lp.id)
         ok = same and fresh and dom
